@@ -5,6 +5,8 @@ expression; lengths are concrete.  Every branch on a symbolic condition goes thr
 `Engine.decide`, which asks z3 which outcomes are consistent with the path condition and records
 the alternative for the prefix-replay DFS in explore.py.
 """
+import os
+import re
 import time
 import z3
 
@@ -33,6 +35,26 @@ class Engine:
         self.cache = {}
         self.domains = {}
         self.keep = []
+        # second-solver cross-check: every dump_every-th query is written as SMT-LIB2 with z3's verdict (framework re-discharges them)
+        self.dump_dir = os.environ.get('VERIF_SMT_DUMP_DIR')
+        self.dump_every = int(os.environ.get('VERIF_SMT_DUMP_EVERY', '0') or 0)
+        self.dump_cap = int(os.environ.get('VERIF_SMT_DUMP_CAP', '6') or 0)     # per obligation
+        self.dumped = 0
+
+    def _dump(self, assumptions, r):
+        try:
+            s2 = z3.Solver()
+            s2.add(self.solver.assertions())
+            s2.add(*assumptions)
+            names = {}
+            # input variables are named name|index|domain (may hold '|' and backslashes, which z3 escapes and SMT-LIB forbids): rename
+            text = re.sub(r'\|(?:[^|\\]|\\.)*\|', lambda m: names.setdefault(m.group(0), 'v%d' % len(names)), s2.to_smt2())
+            f = os.path.join(self.dump_dir, 'q_%d_%d_%s.smt2' % (os.getpid(), self.queries, str(r)))
+            with open(f, 'w') as fh:
+                fh.write('; z3 (python) verdict: %s\n(set-logic ALL)\n' % r + text)
+            self.dumped += 1
+        except Exception:
+            pass
 
     def new_obligation(self):
         """fresh solver; input declarations (variables + their domain constraints) are asserted once at the base level"""
@@ -40,6 +62,7 @@ class Engine:
         self.decls = {}
         self.pending = []
         self.pushed = False
+        self.dumped = 0
 
     def declare(self, name, make):
         """make() -> (value, [constraints], [(var, domain)]) ; cached per obligation, constraints live at the solver's base level"""
@@ -83,6 +106,8 @@ class Engine:
         self.queries += 1
         if r == z3.unknown:
             self.unknowns += 1
+        elif self.dump_every and self.dump_dir and self.dumped < self.dump_cap and self.queries % self.dump_every == 0:
+            self._dump(assumptions, r)
         return r
 
     def assume(self, c):
